@@ -421,6 +421,45 @@ def native_history_replay():
     except Exception as e:
         return dict(confirmed=False, note=f'replay could not run: {type(e).__name__}: {e}')
 
+HASHSEED_CHILD = r"""
+import hashlib, json, os, sys
+os.environ.setdefault('TF_CPP_MIN_LOG_LEVEL', '3')
+import numpy as np, absl.logging; absl.logging.set_verbosity('error')
+from ai_edge_quantizer import quantizer
+from ai_edge_quantizer.utils import tfl_interpreter_utils as tiu
+pkg = sys.argv[1]; out = {}
+for model, recipe in json.loads(sys.argv[2]):
+    path = os.path.join(pkg, 'tests/models', model); rec = os.path.join(pkg, 'recipes', recipe)
+    try:
+        q = quantizer.Quantizer(path, rec); res = None
+        if q.need_calibration:
+            itp = tiu.create_tfl_interpreter(path); det = itp.get_signature_runner().get_input_details()
+            res = q.calibrate([{n: (np.arange(int(np.prod(d['shape'])), dtype=np.float32).reshape(d['shape']) / 7.0 - 3.0).astype(d['dtype']) for n, d in det.items()}])
+        out[model + ' x ' + recipe] = hashlib.sha256(bytes(q.quantize(res).quantized_model)).hexdigest()
+    except Exception as e: out[model + ' x ' + recipe] = 'RAISED ' + type(e).__name__
+print('HASHES ' + json.dumps(out, sort_keys=True))
+"""
+HASHSEED_CASES = [('conv_fc_mnist.tflite', 'default_af32w8float_recipe.json'), ('conv_fc_mnist.tflite', 'default_a8w8_recipe.json'), ('single_fc_bias.tflite', 'default_af32w4float_recipe.json'),
+                  ('two_signatures.tflite', 'default_af32w8float_recipe.json')]
+def hashseed_replay(seeds=(1, 2, 3, 4)):
+    """the public API in FRESH child processes that differ only in PYTHONHASHSEED: the returned bytes must be identical (C14: 'identical across runs and hash seeds')"""
+    import subprocess
+    env0 = dict(os.environ); procs = []
+    for sd in seeds:
+        env = dict(env0, PYTHONHASHSEED=str(sd))
+        procs.append((sd, subprocess.Popen([sys.executable, '-c', HASHSEED_CHILD, core.PKG, json.dumps(HASHSEED_CASES)], env=env, stdout=subprocess.PIPE, stderr=subprocess.DEVNULL, text=True)))
+    res = {}
+    for sd, pr in procs:
+        try: out = pr.communicate(timeout=600)[0]
+        except Exception: pr.kill(); out = ''
+        line = next((l for l in out.splitlines() if l.startswith('HASHES ')), None)
+        res[sd] = json.loads(line[7:]) if line else None
+    ran = {sd: r for sd, r in res.items() if r is not None}
+    if len(ran) < 2: return dict(confirmed=False, note='fewer than two child processes produced a result', cases=0)
+    diff = sorted(k for k in next(iter(ran.values())) if len({r.get(k) for r in ran.values()}) > 1)
+    return dict(confirmed=bool(diff), inputs=dict(cases=[f'{m} x {r}' for m, r in HASHSEED_CASES], seeds=sorted(ran)), violated=[f'bytes returned by quantize() differ between hash seeds for {k}' for k in diff],
+                observed={k: {str(sd): (r.get(k) or '')[:12] for sd, r in ran.items()} for k in diff} or 'identical for every case and seed', cases=len(HASHSEED_CASES) * len(ran))
+
 def run(rep):
     t0 = time.time()
     A = effects.Analysis(core.PKG).run()
@@ -482,7 +521,17 @@ def run(rep):
             if bad: rep.errors.append(f'native scenario shows a modified argument that the frame analysis proved unmodified: {bad}')
         except Exception as e:
             rep.notes.append(f'native scenario could not run: {type(e).__name__}: {str(e)[:160]}')
-    sobs, sites = set_obligations(A, fns); rep.extend(sobs)
+    sobs, sites = set_obligations(A, fns)
+    # bounded stand-in for the 'identical across runs and hash seeds' clause (never counted as proved); it is also the native replay of an undecided set-iteration obligation
+    hs = hashseed_replay()
+    rep.add_bounded('Quantizer.quantize in fresh child processes that differ only in PYTHONHASHSEED', f'{len(HASHSEED_CASES)} fixture model x shipped recipe pairs x seeds {hs.get("inputs", {}).get("seeds")}: sha256 of the returned bytes identical', hs.get('cases', 0), 1 if hs.get('confirmed') else 0,
+                    note=hs.get('note', ''))
+    if hs.get('confirmed'):
+        und = [o for o in sobs if o.status != core.PROVED]
+        for o in und: o.status = core.REFUTED; o.replay = hs
+        if not und:
+            o = core.Ob('C14/bounded.hash-seeds/bytes-identical-across-hash-seeds', None, 'bounded-native', core.REFUTED, 0.0, detail=str(hs['violated']), clause='bytes returned by quantize() are identical across PYTHONHASHSEED values'); o.replay = hs; sobs.append(o)
+    rep.extend(sobs)
     # ---- covers (vacuity): dispatch resolved from algorithm_manager's registration code, call trees non-trivial
     dyn = {(d['fn'], d['callee']): d['targets'] for d in A.dynamic_in(set(A.prog.fns))}
     for fn, callee, must in [('ParamsGenerator.generate_quantization_parameters', 'materialize_func', 'materialize_'), ('Calibrator.calibrate', 'calibrate_func', 'calibrate'),
